@@ -409,10 +409,20 @@ func oracleC16(res *prodResult, vs *violSet, rec *proto.Rec) bool {
 			}
 			rec.Obs["flush_clause_judged"]++
 			nontrivial = true
-			switch res.requestSeen {
-			case -1:
+			// a message that ended with an error has left the buffer too (on a loaded machine a slow answer can
+			// outlast the read timeout and use up the retry budget)
+			failed := 0
+			for _, o := range res.outcomes {
+				if !o.Success {
+					failed++
+				}
+			}
+			switch {
+			case res.requestSeen == -1 && recordsAtCluster(res)+failed >= sc.ExpectAtCluster:
+				rec.Obs["flush_clause_met_counting_failed_messages"]++
+			case res.requestSeen == -1:
 				vs.add("flush-stuck", trig, fmt.Sprintf("only %d of the %d records that had to be flushed reached the cluster although trigger %q had fired and the input stopped (flush: msgs=%d bytes=%d freq=%v, %d submitted)", recordsAtCluster(res), sc.ExpectAtCluster, trig, sc.FlushMessages, sc.FlushBytes, sc.FlushFreq, len(sc.Msgs)))
-			case 0:
+			case res.requestSeen == 0:
 				if rec.Verdict == "" {
 					rec.Verdict, rec.Why = "inconclusive", "flush wait still progressing"
 				}
